@@ -11,10 +11,17 @@ C09XnExp.lean (antiderivative of x^n e^{-αx}), C09Terms.lean (real value of a c
 (c) the HEM closed forms (M's `hemTerms`) are ∫_a^b x^k · density for k = 0, 1, 2 and all rational a ≤ b.
 (d) VG `integrate_against_xn` (M's `vgXnTerms`, n ≥ 1) is ∫_a^b x^n · density; Merton mass / x / x² and VG mass on one
     side of 0 equal the integrals of their densities for every function `erf` / `E1` satisfying the stated derivative
-    hypothesis (a theorem parameter, never an axiom; both hypotheses are shown satisfiable).
+    hypothesis (a theorem parameter, never a global assumption; both hypotheses are shown satisfiable).
     Half-lines [a,∞), a ≥ 0 and (−∞,b], b ≤ 0 for (b) and (c) as improper integrals; Merton / VG mass on half-lines with the
     limit of erf / E1 at infinity as one more hypothesis.  CGMY mass (every branch y < 2) and first moment (y ≠ 1, y = 1)
     on one side of 0 for every `E1`, `Gam` satisfying the derivative hypotheses of E1 and of z ↦ Γ(2−α, z).
+(e) every proper pair of extended end points a ≤ b (`eSet a b` = (a, b], (−∞, b], (a, ∞) or ℝ), one side of zero or straddling
+    it, as the coded split-at-zero composition: `xn_exp_correct_ext`, `hem_correct_ext`, `vg_xn_correct_ext` (Lemmas/C09Ext*.lean).
+(f) the special-function closed forms as lists of (rational coefficient, atom) (Model/IntegralsSpecial.lean, compared with the
+    code through the driver): `merton_correct_ext` (mass, x, x², every end-point shape), `vg_mass_correct_ext`,
+    `cgmy_mass_correct_ext`, `cgmy_x_correct_ext` (one side of zero, infinite end points included), `cgmy_xx_correct` (the
+    gammainc form on a < 0 < b, un-tempered branches included), `cgmy_xx_correct_ext` (infinite end points); the limits at
+    infinity are explicit hypotheses, shown jointly satisfiable with the derivative hypotheses (Lemmas/C09Satisfiable.lean).
 Real end points: the real-analysis statements behind (b), (c) hold for real a, b, α (lemma files); here they are
 specialised to the rationals that floats are.
 -/
@@ -26,6 +33,9 @@ import RpylibModel.Proofs.Lemmas.C09Special
 import RpylibModel.Proofs.Lemmas.C09Improper
 import RpylibModel.Proofs.Lemmas.C09SpecialInf
 import RpylibModel.Proofs.Lemmas.C09Cgmy
+import RpylibModel.Proofs.Lemmas.C09ExtFam
+import RpylibModel.Proofs.Lemmas.C09SpecTerms
+import RpylibModel.Proofs.Lemmas.C09Satisfiable
 
 set_option linter.unusedVariables false
 
@@ -453,6 +463,127 @@ theorem hem_correct_neg_inf (k : ℕ) (hk : k ≤ 2) (lam p eta1 eta2 b : ℚ) (
   · rw [evalTerms_cons, evalTerms_nil, cast_hemNegTerm k hk, integral_Iic_hem k hk _ _ _ _ hlR hpR h2R b hbR]
     push_cast; ring
 
+/-! ## every proper pair of extended end points: one side of zero, straddling it, finite or infinite — as the coded
+    split-at-zero composition of the half-line and finite pieces.  `eSet a b` is (a, b], (−∞, b], (a, ∞) or ℝ. -/
+
+private theorem ELe_zero_cases_neg {a b : ExtRat} (hab : ELe a b) (hb : ELe b (.fin 0)) (hpr : Proper a b) :
+    (∃ b' : ℚ, a = .negInf ∧ b = .fin b' ∧ b' ≤ 0) ∨ (∃ a' b' : ℚ, a = .fin a' ∧ b = .fin b' ∧ a' ≤ b' ∧ b' ≤ 0) := by
+  obtain ⟨h1, h2⟩ := hpr
+  cases a <;> cases b <;> simp_all [ELe, ExtRat.le, ExtRat.lt]
+
+private theorem ELe_zero_cases_pos {a b : ExtRat} (hab : ELe a b) (ha : ELe (.fin 0) a) (hpr : Proper a b) :
+    (∃ a' : ℚ, a = .fin a' ∧ b = .posInf ∧ 0 ≤ a') ∨ (∃ a' b' : ℚ, a = .fin a' ∧ b = .fin b' ∧ a' ≤ b' ∧ 0 ≤ a') := by
+  obtain ⟨h1, h2⟩ := hpr
+  cases a <;> cases b <;> simp_all [ELe, ExtRat.le, ExtRat.lt]
+
+private theorem lt00 : ExtRat.lt (.fin 0) (.fin 0) = false := by simp [ExtRat.lt]
+
+/-- M's `integral_xn_exp_minus_x` equals the integral of x^n e^{-α|x|} over the interval its end points denote, for every
+    n, rational α > 0 and every proper pair of extended end points a ≤ b: [a,b], (−∞,b], [a,∞), (−∞,∞), on one side of
+    zero or straddling it (e.g. (−∞, b] with b > 0 is the coded sum of the half-line (−∞, 0] and the finite piece [0, b]) -/
+theorem xn_exp_correct_ext (n : ℕ) (α : ℚ) (hα : 0 < α) (a b : ExtRat) (hab : ELe a b) (hpr : Proper a b) :
+    ∃ ts, xnExpTerms n α a b = some ts ∧ evalTerms ts = ∫ x in eSet a b, x ^ n * exp (-((α : ℝ) * |x|)) := by
+  have hαR : (0 : ℝ) < α := by exact_mod_cast hα
+  have hnα : ¬ α ≤ 0 := not_le.mpr hα
+  refine ext_of_sides (xnExpTerms n α) _ (integrableOn_Iic_xn_exp n α hαR) (integrableOn_Ioi_xn_exp n α hαR) ?_ ?_ ?_ a b hab hpr
+  · intro a b ha hb
+    have ha' : ExtRat.lt a (.fin 0) = true := by simpa [ELe, ExtRat.le] using ha
+    have hb' : ExtRat.lt (.fin 0) b = true := by simpa [ELe, ExtRat.le] using hb
+    cases e1 : xnExpOneSided helperSum n α a (.fin 0) <;> cases e2 : xnExpOneSided helperSum n α (.fin 0) b <;>
+      simp [xnExpTerms, xnExpTermsWith, hnα, ha', hb', lt00, e1, e2]
+  · intro a b hab hb hpr
+    rcases ELe_zero_cases_neg hab hb hpr with ⟨b', rfl, rfl, hb'⟩ | ⟨a', b', rfl, rfl, hab', hb'⟩
+    · exact xn_exp_correct_neg_inf n α b' hα hb'
+    · rw [← intervalIntegral_eq_eSet _ a' b' hab']; exact xn_exp_correct n α a' b' hα hab'
+  · intro a b hab ha hpr
+    rcases ELe_zero_cases_pos hab ha hpr with ⟨a', rfl, rfl, ha'⟩ | ⟨a', b', rfl, rfl, hab', ha'⟩
+    · exact xn_exp_correct_pos_inf n α a' hα ha'
+    · rw [← intervalIntegral_eq_eSet _ a' b' hab']; exact xn_exp_correct n α a' b' hα hab'
+
+/-- M's HEM mass / first / second moment closed forms equal the integral of x^k · density over the interval the end points
+    denote: k = 0, 1, 2, all rational parameters with η₁, η₂ > 0 (no sign condition on λ, p), every proper pair of extended
+    end points a ≤ b — one side of zero or straddling it, finite or infinite -/
+theorem hem_correct_ext (k : ℕ) (hk : k ≤ 2) (lam p eta1 eta2 : ℚ) (h1 : 0 < eta1) (h2 : 0 < eta2) (a b : ExtRat)
+    (hab : ELe a b) (hpr : Proper a b) :
+    ∃ ts, hemTerms k lam p eta1 eta2 a b = some ts ∧
+      evalTerms ts = ∫ x in eSet a b, x ^ k * hemDensity lam p eta1 eta2 x := by
+  have h1R : (0 : ℝ) < eta1 := by exact_mod_cast h1
+  have h2R : (0 : ℝ) < eta2 := by exact_mod_cast h2
+  refine ext_of_sides (hemTerms k lam p eta1 eta2) _ (integrableOn_Iic_hem k lam p eta1 eta2 h2R)
+    (integrableOn_Ioi_hem k lam p eta1 eta2 h1R) ?_ ?_ ?_ a b hab hpr
+  · intro a b ha hb
+    have ha' : ExtRat.lt a (.fin 0) = true := by simpa [ELe, ExtRat.le] using ha
+    have hb' : ExtRat.lt (.fin 0) b = true := by simpa [ELe, ExtRat.le] using hb
+    have hba : ExtRat.lt b a = false := by
+      cases a <;> cases b <;> simp_all [ExtRat.lt]
+      linarith
+    have ha0 : ExtRat.lt (.fin 0) a = false := by cases a <;> simp_all [ExtRat.lt]; linarith
+    have hb0 : ExtRat.lt b (.fin 0) = false := by cases b <;> simp_all [ExtRat.lt]; linarith
+    cases e1 : hemNeg k lam p eta2 a (.fin 0) <;> cases e2 : hemPos k lam p eta1 (.fin 0) b <;>
+      simp [hemTerms, ExtRat.le, ha', hb', hba, ha0, hb0, lt00, e1, e2]
+  · intro a b hab hb hpr
+    rcases ELe_zero_cases_neg hab hb hpr with ⟨b', rfl, rfl, hb'⟩ | ⟨a', b', rfl, rfl, hab', hb'⟩
+    · have hbR : (b' : ℝ) ≤ 0 := by exact_mod_cast hb'
+      refine ⟨[hemNegTerm k (lam * (1 - p)) eta2 b'], ?_, ?_⟩
+      · simp [hemTerms, hemNeg, ExtRat.lt, ExtRat.le, not_lt.mpr hb']
+      · rw [evalTerms_cons, evalTerms_nil, cast_hemNegTerm k hk]
+        simp only [eSet]
+        rw [integral_Iic_hem' k hk _ _ _ _ h2R b' hbR]
+        push_cast; ring
+    · rw [← intervalIntegral_eq_eSet _ a' b' hab']; exact hem_correct k hk lam p eta1 eta2 a' b' h1.ne' h2.ne' hab'
+  · intro a b hab ha hpr
+    rcases ELe_zero_cases_pos hab ha hpr with ⟨a', rfl, rfl, ha'⟩ | ⟨a', b', rfl, rfl, hab', ha'⟩
+    · have haR : (0 : ℝ) ≤ a' := by exact_mod_cast ha'
+      refine ⟨[hemPosTerm k (lam * p) eta1 a'], ?_, ?_⟩
+      · simp [hemTerms, hemPos, ExtRat.lt, ExtRat.le, not_lt.mpr ha']
+      · rw [evalTerms_cons, evalTerms_nil, cast_hemPosTerm k hk]
+        simp only [eSet]
+        rw [integral_Ioi_hem' k hk _ _ _ _ h1R a' haR]
+        push_cast; ring
+    · rw [← intervalIntegral_eq_eSet _ a' b' hab']; exact hem_correct k hk lam p eta1 eta2 a' b' h1.ne' h2.ne' hab'
+
+/-- M's VG `integrate_against_xn` for n ≥ 1 equals the integral of x^n · density over the interval the end points denote,
+    for every proper pair of extended end points a ≤ b (infinite end points included, one side of zero or straddling it) -/
+theorem vg_xn_correct_ext (m : ℕ) (c lp lm : ℚ) (hlp : 0 < lp) (hlm : 0 < lm) (a b : ExtRat) (hab : ELe a b)
+    (hpr : Proper a b) :
+    ∃ ts, vgXnTerms c lp lm (m + 1) a b = some ts ∧
+      evalTerms ts = ∫ x in eSet a b, x ^ (m + 1) * vgDensity c lp lm x := by
+  have hlpR : (0 : ℝ) < lp := by exact_mod_cast hlp
+  have hlmR : (0 : ℝ) < lm := by exact_mod_cast hlm
+  refine ext_of_sides (vgXnTerms c lp lm (m + 1)) _ (integrableOn_Iic_vg m c lp lm hlmR) (integrableOn_Ioi_vg m c lp lm hlpR)
+    ?_ ?_ ?_ a b hab hpr
+  · intro a b ha hb
+    have ha' : ExtRat.lt a (.fin 0) = true := by simpa [ELe, ExtRat.le] using ha
+    have hb' : ExtRat.lt (.fin 0) b = true := by simpa [ELe, ExtRat.le] using hb
+    cases h1 : xnExpTerms m lm a (.fin 0) <;> cases h2 : xnExpTerms m lp (.fin 0) b <;>
+      simp [vgXnTerms, ha', hb', ExtRat.le, lt00, h1, h2]
+  · intro a b hab hb hpr
+    obtain ⟨ts, hts, hev⟩ := xn_exp_correct_ext m lm hlm a b hab hpr
+    have hb0 : ExtRat.lt (.fin 0) b = false := by simpa [ELe, ExtRat.le] using hb
+    refine ⟨scaleTerms (-c) ts, ?_, ?_⟩
+    · have hb1 : ExtRat.le b (.fin 0) = true := hb
+      simp [vgXnTerms, hb0, hb1, hts]
+    · rw [evalTerms_scale, hev, setIntegral_vg_neg m c lp lm _ (measurableSet_eSet a b) (eSet_subset_Iic a b hb)]
+      push_cast; ring
+  · intro a b hab ha hpr
+    obtain ⟨ts, hts, hev⟩ := xn_exp_correct_ext m lp hlp a b hab hpr
+    have ha0 : ExtRat.lt a (.fin 0) = false := by simpa [ELe, ExtRat.le] using ha
+    by_cases hb : ELe b (.fin 0)
+    · -- a = b = 0: the code takes the `b <= 0` branch; both sides are 0
+      have hab0 : a = .fin 0 ∧ b = .fin 0 := by
+        obtain ⟨h1, h2⟩ := hpr
+        cases a <;> cases b <;> simp_all [ELe, ExtRat.le, ExtRat.lt]
+        constructor <;> linarith
+      obtain ⟨rfl, rfl⟩ := hab0
+      obtain ⟨ts', hts', hev'⟩ := xn_exp_correct_ext m lm hlm (.fin 0) (.fin 0) hab hpr
+      refine ⟨scaleTerms (-c) ts', ?_, ?_⟩
+      · simp [vgXnTerms, ExtRat.lt, ExtRat.le, hts']
+      · rw [evalTerms_scale, hev']; simp [eSet]
+    · have hb1 : ExtRat.le b (.fin 0) = false := by simpa [ELe] using hb
+      refine ⟨scaleTerms c ts, ?_, ?_⟩
+      · simp [vgXnTerms, ha0, hb1, hts]
+      · rw [evalTerms_scale, hev, setIntegral_vg_pos m c lp lm _ (measurableSet_eSet a b) (eSet_subset_Ioi a b ha)]
+
 /-! ## (d) infinite end points for the special-function families: the limit at infinity is one more hypothesis -/
 open Filter Topology in
 /-- Merton `integrate(a, inf)` (scipy: erf(inf) = 1) -/
@@ -481,6 +612,49 @@ theorem vg_mass_Iic (E1 : ℝ → ℝ) (hE1 : ∀ x, 0 < x → HasDerivAt E1 (-e
     (c lp lm : ℝ) (hc : 0 ≤ c) (hlm : 0 < lm) (b : ℝ) (hb : b < 0) :
     c * E1 (-lm * b) = ∫ x in Set.Iic b, vgDensity c lp lm x :=
   (integral_Iic_vg_mass E1 hE1 hlim c lp lm hc hlm b hb).symm
+
+/-! ## (d) Merton with every proper pair of extended end points, tied to the model's terms -/
+
+open Filter Topology in
+/-- M's Merton closed forms (`mertonTerms`: mass, first and second moment as lists of erf- and Gaussian terms with rational
+    coefficients, erf(±∞) = ±1, the Gaussian term dropped at an infinite end point as the code does) equal the integral of
+    x^k · density over the interval the end points denote — finite, (−∞, b], (a, ∞) and ℝ — for every function `erf` with
+    erf' x = 2/√π·e^{−x²}, erf → 1 at +∞ and erf → −1 at −∞ (all three hypotheses jointly satisfiable:
+    `erf_hypotheses_satisfiable`) -/
+theorem merton_correct_ext (erf : ℝ → ℝ) (herf : ∀ x, HasDerivAt erf (2 / √π * exp (-x ^ 2)) x)
+    (hlimT : Tendsto erf atTop (𝓝 1)) (hlimB : Tendsto erf atBot (𝓝 (-1)))
+    (k : ℕ) (hk : k ≤ 2) (lam mu sigma : ℚ) (hs : 0 < sigma) (a b : ExtRat) (hab : ELe a b) (hpr : Proper a b) :
+    ∃ t, mertonTerms k lam mu sigma a b = some t ∧
+      evalMerton erf mu sigma t = ∫ x in eSet a b, x ^ k * mertonDensity lam mu sigma x := by
+  have hsR : (0 : ℝ) < sigma := by exact_mod_cast hs
+  obtain ⟨t, ht, hv⟩ := evalMerton_terms erf k hk lam mu sigma a b
+  exact ⟨t, ht, by rw [hv, integral_eSet_merton erf herf hlimT hlimB k hk lam mu sigma hsR a b hab hpr]⟩
+
+open Filter Topology in
+/-- Merton first moment over (a, ∞): `λ (μ/2 · 1 − fun_aux(a))` (merton.py:80-92 with erf(inf) = 1, exp(−inf) = 0) -/
+theorem merton_x_Ioi (erf : ℝ → ℝ) (herf : ∀ x, HasDerivAt erf (2 / √π * exp (-x ^ 2)) x)
+    (hlim : Tendsto erf atTop (𝓝 1)) (lam mu sigma : ℝ) (hs : 0 < sigma) (a : ℝ) :
+    lam * (0.5 * mu * 1) - lam * mertonAuxX erf mu sigma a = ∫ x in Set.Ioi a, x ^ 1 * mertonDensity lam mu sigma x :=
+  (integral_Ioi_merton erf herf hlim 1 (by norm_num) lam mu sigma hs a).symm
+
+open Filter Topology in
+/-- Merton second moment over (−∞, b]: `λ (fun_aux(b) − (μ²+σ²)/2 · (−1))` (merton.py:94-114, the `x == -inf` branch) -/
+theorem merton_xx_Iic (erf : ℝ → ℝ) (herf : ∀ x, HasDerivAt erf (2 / √π * exp (-x ^ 2)) x)
+    (hlim : Tendsto erf atBot (𝓝 (-1))) (lam mu sigma : ℝ) (hs : 0 < sigma) (b : ℝ) :
+    lam * mertonAuxXX erf mu sigma b - lam * (0.5 * (mu ^ 2 + sigma ^ 2) * -1)
+      = ∫ x in Set.Iic b, x ^ 2 * mertonDensity lam mu sigma x :=
+  (integral_Iic_merton erf herf hlim 2 (by norm_num) lam mu sigma hs b).symm
+
+open Filter Topology in
+/-- Merton moments over ℝ: mass λ, first moment λμ, second moment λ(μ² + σ²) -/
+theorem merton_line (erf : ℝ → ℝ) (herf : ∀ x, HasDerivAt erf (2 / √π * exp (-x ^ 2)) x)
+    (hlimT : Tendsto erf atTop (𝓝 1)) (hlimB : Tendsto erf atBot (𝓝 (-1))) (lam mu sigma : ℝ) (hs : 0 < sigma) :
+    (∫ x, x ^ 0 * mertonDensity lam mu sigma x) = lam ∧ (∫ x, x ^ 1 * mertonDensity lam mu sigma x) = lam * mu ∧
+      (∫ x, x ^ 2 * mertonDensity lam mu sigma x) = lam * (mu ^ 2 + sigma ^ 2) := by
+  refine ⟨?_, ?_, ?_⟩
+  · rw [integral_univ_merton erf herf hlimT hlimB 0 (by norm_num) lam mu sigma hs]; simp only [mertonFInf]; ring
+  · rw [integral_univ_merton erf herf hlimT hlimB 1 (by norm_num) lam mu sigma hs]; simp only [mertonFInf]; ring
+  · rw [integral_univ_merton erf herf hlimT hlimB 2 (by norm_num) lam mu sigma hs]; simp only [mertonFInf]; ring
 
 /-! ## (d) CGMY on one side of zero (cgmy.py:127-168, 215-276), `E1` and `Gam a z` = Γ(2−a)·gammaincc(2−a, z) as parameters -/
 
@@ -517,6 +691,213 @@ theorem cgmy_x_y1_pos (E1 : ℝ → ℝ) (hE1 : ∀ x, 0 < x → HasDerivAt E1 (
     c * (E1 (m * a) - E1 (m * b)) = ∫ x in a..b, x ^ 1 * cgmyDensity c g m 1 x :=
   (integral_cgmy_x_y1_pos E1 hE1 c g m hm a b ha hab).symm
 
+/-! ## (d) VG mass and CGMY mass / first moment with extended end points on one side of zero, CGMY second moment over an
+    interval straddling zero — tied to the model's terms (Model/IntegralsSpecial.lean) -/
+
+/-- the interval lies on one side of zero and away from it: 0 < a or b < 0 -/
+def AwayFromZero (a b : ExtRat) : Prop := ExtRat.lt (.fin 0) a = true ∨ ExtRat.lt b (.fin 0) = true
+
+private theorem away_cases {a b : ExtRat} (hab : ELe a b) (hpr : Proper a b) (hz : AwayFromZero a b) :
+    (∃ a' : ℚ, a = .fin a' ∧ b = .posInf ∧ 0 < a') ∨ (∃ b' : ℚ, a = .negInf ∧ b = .fin b' ∧ b' < 0) ∨
+      (∃ a' b' : ℚ, a = .fin a' ∧ b = .fin b' ∧ 0 < a' ∧ a' ≤ b') ∨ (∃ a' b' : ℚ, a = .fin a' ∧ b = .fin b' ∧ b' < 0 ∧ a' ≤ b') := by
+  obtain ⟨h1, h2⟩ := hpr
+  cases a <;> cases b <;> simp_all [ELe, ExtRat.le, ExtRat.lt, AwayFromZero]
+
+open Filter Topology in
+/-- M's VG mass (`vgMassTerms`, Σ c·E1(z) with rational c, z) equals the integral of the density over every interval on one
+    side of zero and away from it, infinite end points included, for every `E1` with E1' x = −e^{−x}/x on x > 0 and E1 → 0 at +∞ -/
+theorem vg_mass_correct_ext (E1 : ℝ → ℝ) (hE1 : ∀ x, 0 < x → HasDerivAt E1 (-exp (-x) / x) x)
+    (hlim : Tendsto E1 atTop (𝓝 0)) (c lp lm : ℚ) (hc : 0 ≤ c) (hlp : 0 < lp) (hlm : 0 < lm) (a b : ExtRat)
+    (hab : ELe a b) (hpr : Proper a b) (hz : AwayFromZero a b) :
+    ∃ t, vgMassTerms c lp lm a b = some t ∧ evalE1Terms E1 t = ∫ x in eSet a b, vgDensity c lp lm x := by
+  have hcR : (0 : ℝ) ≤ c := by exact_mod_cast hc
+  have hlpR : (0 : ℝ) < lp := by exact_mod_cast hlp
+  have hlmR : (0 : ℝ) < lm := by exact_mod_cast hlm
+  rcases away_cases hab hpr hz with ⟨a', rfl, rfl, ha⟩ | ⟨b', rfl, rfl, hb⟩ | ⟨a', b', rfl, rfl, ha, hab'⟩ | ⟨a', b', rfl, rfl, hb, hab'⟩
+  · have haR : (0 : ℝ) < a' := by exact_mod_cast ha
+    refine ⟨[(c, lp * a')], by simp [vgMassTerms], ?_⟩
+    simp only [evalE1Terms_cons, evalE1Terms_nil, eSet, add_zero]
+    rw [← vg_mass_Ioi E1 hE1 hlim c lp lm hcR hlpR a' haR]; push_cast; ring
+  · have hbR : (b' : ℝ) < 0 := by exact_mod_cast hb
+    refine ⟨[(c, -lm * b')], by simp [vgMassTerms], ?_⟩
+    simp only [evalE1Terms_cons, evalE1Terms_nil, eSet, add_zero]
+    rw [← vg_mass_Iic E1 hE1 hlim c lp lm hcR hlmR b' hbR]; push_cast; ring
+  · have haR : (0 : ℝ) < a' := by exact_mod_cast ha
+    have habR : (a' : ℝ) ≤ b' := by exact_mod_cast hab'
+    have hb : 0 < b' := lt_of_lt_of_le ha hab'
+    refine ⟨[(c, lp * a'), (-c, lp * b')], by simp [vgMassTerms, ha, hb], ?_⟩
+    rw [← intervalIntegral_eq_eSet _ a' b' hab', ← vg_mass_pos E1 hE1 c lp lm hlpR a' b' haR habR]
+    simp only [evalE1Terms_cons, evalE1Terms_nil]; push_cast; ring
+  · have hbR : (b' : ℝ) < 0 := by exact_mod_cast hb
+    have habR : (a' : ℝ) ≤ b' := by exact_mod_cast hab'
+    have ha : a' < 0 := lt_of_le_of_lt hab' hb
+    have hna : ¬ 0 < a' := not_lt.mpr ha.le
+    refine ⟨[(c, -lm * b'), (-c, -lm * a')], by simp [vgMassTerms, ha, hb, hna], ?_⟩
+    rw [← intervalIntegral_eq_eSet _ a' b' hab', ← vg_mass_neg E1 hE1 c lp lm hlmR a' b' hbR habR]
+    simp only [evalE1Terms_cons, evalE1Terms_nil]; push_cast; ring
+
+open Filter Topology in
+/-- M's CGMY mass (`cgmyMassTerms`: ±c · `__integrate_h_to_inf`(y, ·, rate) atoms) equals the integral of the density over
+    every interval on one side of zero and away from it — finite, (a, ∞) with a > 0, (−∞, b] with b < 0 — for every branch
+    y < 2 of the activity index, under the derivative hypotheses on E1 and Γ(2−a, ·) and the limits E1 → 0, Γ(2−a, ·) → 0 at +∞ -/
+theorem cgmy_mass_correct_ext (E1 : ℝ → ℝ) (Gam gl : ℝ → ℝ → ℝ) (GamC : ℝ → ℝ)
+    (hE1 : ∀ x, 0 < x → HasDerivAt E1 (-exp (-x) / x) x)
+    (hG : ∀ a z, 0 < z → HasDerivAt (Gam a) (-(z ^ (1 - a) * exp (-z))) z)
+    (hE1lim : Tendsto E1 atTop (𝓝 0)) (hGlim : ∀ a, Tendsto (Gam a) atTop (𝓝 0))
+    (c g m y : ℚ) (hc : 0 ≤ c) (hg : 0 < g) (hm : 0 < m) (hy : y < 2) (a b : ExtRat)
+    (hab : ELe a b) (hpr : Proper a b) (hz : AwayFromZero a b) :
+    ∃ t, cgmyMassTerms c g m y a b = some t ∧
+      evalCgmyTerms E1 Gam gl GamC t = ∫ x in eSet a b, cgmyDensity c g m y x := by
+  have hcR : (0 : ℝ) ≤ c := by exact_mod_cast hc
+  have hgR : (0 : ℝ) < g := by exact_mod_cast hg
+  have hmR : (0 : ℝ) < m := by exact_mod_cast hm
+  have hyR : (y : ℝ) < 2 := by exact_mod_cast hy
+  rcases away_cases hab hpr hz with ⟨a', rfl, rfl, ha⟩ | ⟨b', rfl, rfl, hb⟩ | ⟨a', b', rfl, rfl, ha, hab'⟩ | ⟨a', b', rfl, rfl, hb, hab'⟩
+  · have haR : (0 : ℝ) < a' := by exact_mod_cast ha
+    refine ⟨[(c, .tailMass y m a')], by simp [cgmyMassTerms, ha], ?_⟩
+    simp only [evalCgmyTerms_cons, evalCgmyTerms_nil, evalCgmyAtom, eSet, add_zero]
+    rw [integral_Ioi_cgmy_mass E1 Gam hE1 hG hE1lim hGlim c g m y hcR hyR hmR a' haR]
+  · have hbR : (b' : ℝ) < 0 := by exact_mod_cast hb
+    refine ⟨[(c, .tailMass y g (-b'))], by simp [cgmyMassTerms, hb], ?_⟩
+    simp only [evalCgmyTerms_cons, evalCgmyTerms_nil, evalCgmyAtom, eSet, add_zero]
+    rw [integral_Iic_cgmy_mass E1 Gam hE1 hG hE1lim hGlim c g m y hcR hyR hgR b' hbR]; push_cast; ring
+  · have haR : (0 : ℝ) < a' := by exact_mod_cast ha
+    have habR : (a' : ℝ) ≤ b' := by exact_mod_cast hab'
+    have hb : 0 < b' := lt_of_lt_of_le ha hab'
+    refine ⟨[(c, .tailMass y m a'), (-c, .tailMass y m b')], by simp [cgmyMassTerms, ha, hb], ?_⟩
+    rw [← intervalIntegral_eq_eSet _ a' b' hab', integral_cgmy_mass_pos E1 Gam hE1 hG c g m y hyR hmR a' b' haR habR]
+    simp only [evalCgmyTerms_cons, evalCgmyTerms_nil, evalCgmyAtom]; push_cast; ring
+  · have hbR : (b' : ℝ) < 0 := by exact_mod_cast hb
+    have habR : (a' : ℝ) ≤ b' := by exact_mod_cast hab'
+    have ha : a' < 0 := lt_of_le_of_lt hab' hb
+    have hna : ¬ 0 < a' := not_lt.mpr ha.le
+    refine ⟨[(c, .tailMass y g (-b')), (-c, .tailMass y g (-a'))], by simp [cgmyMassTerms, ha, hb, hna], ?_⟩
+    rw [← intervalIntegral_eq_eSet _ a' b' hab', integral_cgmy_mass_neg E1 Gam hE1 hG c g m y hyR hgR a' b' hbR habR]
+    simp only [evalCgmyTerms_cons, evalCgmyTerms_nil, evalCgmyAtom]; push_cast; ring
+
+open Filter Topology in
+/-- M's CGMY first moment (`cgmyXTerms`: ±c · `__integrate_h_to_inf_for_xx`(y, ·, rate) atoms, exp1 branch for y = 1) equals
+    the integral of x · density over every interval on one side of zero and away from it, infinite end points included -/
+theorem cgmy_x_correct_ext (E1 : ℝ → ℝ) (Gam gl : ℝ → ℝ → ℝ) (GamC : ℝ → ℝ)
+    (hE1 : ∀ x, 0 < x → HasDerivAt E1 (-exp (-x) / x) x)
+    (hG : ∀ a z, 0 < z → HasDerivAt (Gam a) (-(z ^ (1 - a) * exp (-z))) z)
+    (hE1lim : Tendsto E1 atTop (𝓝 0)) (hGlim : ∀ a, Tendsto (Gam a) atTop (𝓝 0))
+    (c g m y : ℚ) (hc : 0 ≤ c) (hg : 0 < g) (hm : 0 < m) (a b : ExtRat)
+    (hab : ELe a b) (hpr : Proper a b) (hz : AwayFromZero a b) :
+    ∃ t, cgmyXTerms c g m y a b = some t ∧
+      evalCgmyTerms E1 Gam gl GamC t = ∫ x in eSet a b, x ^ 1 * cgmyDensity c g m y x := by
+  have hcR : (0 : ℝ) ≤ c := by exact_mod_cast hc
+  have hgR : (0 : ℝ) < g := by exact_mod_cast hg
+  have hmR : (0 : ℝ) < m := by exact_mod_cast hm
+  rcases away_cases hab hpr hz with ⟨a', rfl, rfl, ha⟩ | ⟨b', rfl, rfl, hb⟩ | ⟨a', b', rfl, rfl, ha, hab'⟩ | ⟨a', b', rfl, rfl, hb, hab'⟩
+  · have haR : (0 : ℝ) < a' := by exact_mod_cast ha
+    refine ⟨[(c, .tailX y m a')], by simp [cgmyXTerms, ha], ?_⟩
+    simp only [evalCgmyTerms_cons, evalCgmyTerms_nil, evalCgmyAtom, eSet, add_zero]
+    rw [integral_Ioi_cgmy_x E1 Gam hE1 hG hE1lim hGlim c g m y hcR hmR a' haR]
+  · have hbR : (b' : ℝ) < 0 := by exact_mod_cast hb
+    refine ⟨[(-c, .tailX y g (-b'))], by simp [cgmyXTerms, hb], ?_⟩
+    simp only [evalCgmyTerms_cons, evalCgmyTerms_nil, evalCgmyAtom, eSet, add_zero]
+    rw [integral_Iic_cgmy_x E1 Gam hE1 hG hE1lim hGlim c g m y hcR hgR b' hbR]; push_cast; ring
+  · have haR : (0 : ℝ) < a' := by exact_mod_cast ha
+    have habR : (a' : ℝ) ≤ b' := by exact_mod_cast hab'
+    refine ⟨[(c, .tailX y m a'), (-c, .tailX y m b')], by simp [cgmyXTerms, ha], ?_⟩
+    rw [← intervalIntegral_eq_eSet _ a' b' hab', integral_cgmy_xall_pos E1 Gam hE1 hG c g m y hmR a' b' haR habR]
+    simp only [evalCgmyTerms_cons, evalCgmyTerms_nil, evalCgmyAtom]; push_cast; ring
+  · have hbR : (b' : ℝ) < 0 := by exact_mod_cast hb
+    have habR : (a' : ℝ) ≤ b' := by exact_mod_cast hab'
+    have ha : a' < 0 := lt_of_le_of_lt hab' hb
+    have hna : ¬ 0 < a' := not_lt.mpr ha.le
+    refine ⟨[(c, .tailX y g (-a')), (-c, .tailX y g (-b'))], by simp [cgmyXTerms, ha, hb, hna], ?_⟩
+    rw [← intervalIntegral_eq_eSet _ a' b' hab', integral_cgmy_xall_neg E1 Gam hE1 hG c g m y hgR a' b' hbR habR]
+    simp only [evalCgmyTerms_cons, evalCgmyTerms_nil, evalCgmyAtom]; push_cast; ring
+
+/-- M's CGMY second moment over an interval straddling zero (`cgmyXXTerms`, the gammainc form of cgmy.py:170-190, the
+    un-tempered branches g = 0 / m = 0 included) equals the integral of x² · density, for every `gl` with
+    d/dz gl(s, z) = z^(s−1) e^{−z} on z > 0, gl(s, 0) = 0 and gl(s, ·) continuous at 0 from the right (s = 2 − y > 0) -/
+theorem cgmy_xx_correct (E1 : ℝ → ℝ) (Gam gl : ℝ → ℝ → ℝ) (GamC : ℝ → ℝ)
+    (hgl : ∀ s, 0 < s → ∀ z, 0 < z → HasDerivAt (gl s) (z ^ (s - 1) * exp (-z)) z)
+    (hgl0 : ∀ s, 0 < s → gl s 0 = 0) (hglc : ∀ s, 0 < s → ContinuousWithinAt (gl s) (Set.Ici 0) 0)
+    (c g m y : ℚ) (hg : 0 ≤ g) (hm : 0 ≤ m) (hy : y < 2) (a b : ℚ) (ha : a < 0) (hb : 0 < b) :
+    ∃ t, cgmyXXTerms c g m y (.fin a) (.fin b) = some t ∧
+      evalCgmyTerms E1 Gam gl GamC t = ∫ x in (a : ℝ)..(b : ℝ), x ^ 2 * cgmyDensity c g m y x := by
+  have hgR : (0 : ℝ) ≤ g := by exact_mod_cast hg
+  have hmR : (0 : ℝ) ≤ m := by exact_mod_cast hm
+  have hyR : (y : ℝ) < 2 := by exact_mod_cast hy
+  have haR : (a : ℝ) ≤ 0 := by exact_mod_cast ha.le
+  have hbR : (0 : ℝ) ≤ b := by exact_mod_cast hb.le
+  have hs : (0 : ℝ) < ((2 - y : ℚ) : ℝ) := by push_cast; linarith
+  obtain ⟨t1, ht1, hv1⟩ := eval_cgmyXXSide E1 Gam gl GamC c y m b
+  obtain ⟨t2, ht2, hv2⟩ := eval_cgmyXXSide E1 Gam gl GamC c y g (-a)
+  refine ⟨[t1, t2], ?_, ?_⟩
+  · simp [cgmyXXTerms, ExtRat.lt, ExtRat.neg, ha, hb, ht1, ht2]
+  · have e : ((2 - y : ℚ) : ℝ) = 2 - (y : ℝ) := by push_cast; ring
+    have hgl' := hgl _ hs
+    rw [e] at hgl' hv1 hv2
+    have h0 := hgl0 _ hs
+    have hc' := hglc _ hs
+    rw [e] at h0 hc'
+    rw [integral_cgmy_xx_straddle (gl (2 - (y : ℝ))) c g m y hyR hgR hmR hgl' h0 hc' a b haR hbR]
+    simp only [evalCgmyTerms_cons, evalCgmyTerms_nil, hv1, hv2]
+    push_cast; ring
+
+open Filter Topology in
+/-- … and with infinite end points (`gammainc(s, inf) = 1` in the code, the hypothesis gl(s, ·) → GamC(s) here), for g, m > 0:
+    every extended pair a < 0 < b, e.g. (−∞, ∞) gives c·Γ(2−y)·(m^(y−2) + g^(y−2)) -/
+theorem cgmy_xx_correct_ext (E1 : ℝ → ℝ) (Gam gl : ℝ → ℝ → ℝ) (GamC : ℝ → ℝ)
+    (hgl : ∀ s, 0 < s → ∀ z, 0 < z → HasDerivAt (gl s) (z ^ (s - 1) * exp (-z)) z)
+    (hgl0 : ∀ s, 0 < s → gl s 0 = 0) (hglc : ∀ s, 0 < s → ContinuousWithinAt (gl s) (Set.Ici 0) 0)
+    (hlim : ∀ s, 0 < s → Tendsto (gl s) atTop (𝓝 (GamC s)))
+    (c g m y : ℚ) (hg : 0 < g) (hm : 0 < m) (hy : y < 2) (a b : ExtRat)
+    (ha : ExtRat.lt a (.fin 0) = true) (hb : ExtRat.lt (.fin 0) b = true) :
+    ∃ t, cgmyXXTerms c g m y a b = some t ∧
+      evalCgmyTerms E1 Gam gl GamC t = ∫ x in eSet a b, x ^ 2 * cgmyDensity c g m y x := by
+  have hgR : (0 : ℝ) < g := by exact_mod_cast hg
+  have hmR : (0 : ℝ) < m := by exact_mod_cast hm
+  have hyR : (y : ℝ) < 2 := by exact_mod_cast hy
+  have hs : (0 : ℝ) < ((2 - y : ℚ) : ℝ) := by push_cast; linarith
+  have e : ((2 - y : ℚ) : ℝ) = 2 - (y : ℝ) := by push_cast; ring
+  have hgl' := hgl _ hs
+  have h0 := hgl0 _ hs
+  have hc' := hglc _ hs
+  have hl' := hlim _ hs
+  rw [e] at hgl' h0 hc' hl'
+  obtain ⟨hp, vp⟩ := integrableOn_Ioi_cgmy_xx (gl (2 - (y : ℝ))) (GamC (2 - (y : ℝ))) c g m y hyR hmR hgl' h0 hc' hl'
+  obtain ⟨hn, vn⟩ := integrableOn_Iic_cgmy_xx (gl (2 - (y : ℝ))) (GamC (2 - (y : ℝ))) c g m y hyR hgR hgl' h0 hc' hl'
+  have hna : ¬ ELe (.fin 0) a := by simp [ELe, ExtRat.le, ha]
+  have hnb : ¬ ELe b (.fin 0) := by simp [ELe, ExtRat.le, hb]
+  have hm0 : m ≠ 0 := hm.ne'
+  have hg0 : g ≠ 0 := hg.ne'
+  have hmR0 : ((m : ℚ) : ℝ) ≠ 0 := hmR.ne'
+  have hgR0 : ((g : ℚ) : ℝ) ≠ 0 := hgR.ne'
+  refine ⟨[(c, .lowGam (2 - y) m b), (c, .lowGam (2 - y) g (ExtRat.neg a))], by simp [cgmyXXTerms, cgmyXXSide, ha, hb, hm0, hg0], ?_⟩
+  rw [setIntegral_eSet_split hn hp a b hna hnb]
+  simp only [evalCgmyTerms_cons, evalCgmyTerms_nil, add_zero]
+  have hR : (c : ℝ) * evalCgmyAtom E1 Gam gl GamC (.lowGam (2 - y) m b)
+      = ∫ x in eSet (.fin 0) b, x ^ 2 * cgmyDensity c g m y x := by
+    cases b with
+    | negInf => simp [ExtRat.lt] at hb
+    | posInf => simp only [evalCgmyAtom, eSet, Rat.cast_zero]; rw [vp, e]
+    | fin b' =>
+      have hb' : (0 : ℚ) < b' := by simpa [ExtRat.lt] using hb
+      have hbR : (0 : ℝ) ≤ b' := by exact_mod_cast hb'.le
+      have h := intervalIntegral_eq_eSet (fun x => x ^ 2 * cgmyDensity c g m y x) 0 b' hb'.le
+      simp only [Rat.cast_zero] at h
+      rw [← h, integral_cgmy_xx_pos (gl (2 - (y : ℝ))) c g m y hyR hmR.le hgl' h0 hc' b' hbR]
+      simp [evalCgmyAtom, cgmyLow, hmR0, e]
+  have hL : (c : ℝ) * evalCgmyAtom E1 Gam gl GamC (.lowGam (2 - y) g (ExtRat.neg a))
+      = ∫ x in eSet a (.fin 0), x ^ 2 * cgmyDensity c g m y x := by
+    cases a with
+    | posInf => simp [ExtRat.lt] at ha
+    | negInf => simp only [evalCgmyAtom, ExtRat.neg, eSet, Rat.cast_zero]; rw [vn, e]
+    | fin a' =>
+      have ha' : a' < (0 : ℚ) := by simpa [ExtRat.lt] using ha
+      have haR : (a' : ℝ) ≤ 0 := by exact_mod_cast ha'.le
+      have h := intervalIntegral_eq_eSet (fun x => x ^ 2 * cgmyDensity c g m y x) a' 0 ha'.le
+      simp only [Rat.cast_zero] at h
+      rw [← h, integral_cgmy_xx_neg (gl (2 - (y : ℝ))) c g m y hyR hgR.le hgl' h0 hc' a' haR]
+      simp [evalCgmyAtom, ExtRat.neg, cgmyLow, hgR0, e]
+  rw [hR, hL]; ring
+
 /-- the hypothesis on the incomplete gamma function is satisfiable, for every index a at once -/
 theorem Gam_hypothesis_satisfiable :
     ∃ Gam : ℝ → ℝ → ℝ, ∀ a z, 0 < z → HasDerivAt (Gam a) (-(z ^ (1 - a) * exp (-z))) z := by
@@ -531,5 +912,67 @@ theorem Gam_hypothesis_satisfiable :
     exact lt_of_lt_of_le (lt_min one_pos hz) ht.1
   exact intervalIntegral.integral_hasDerivAt_right hint
     (hcont.stronglyMeasurableAtFilter isOpen_Ioi z hz) (hcont.continuousAt (Ioi_mem_nhds hz))
+
+/-! ## non-vacuity of the theorems with extended end points / special-function hypotheses -/
+
+example : ∃ ts, xnExpTerms 2 1 .negInf (.fin 1) = some ts ∧
+    evalTerms ts = ∫ x in Set.Iic (((1 : ℚ) : ℝ)), x ^ 2 * exp (-(((1 : ℚ) : ℝ) * |x|)) :=
+  xn_exp_correct_ext 2 1 (by norm_num) .negInf (.fin 1) (by simp [ELe, ExtRat.le, ExtRat.lt]) ⟨by simp, by simp⟩
+
+example : ∃ ts, hemTerms 1 3 (1 / 2) 10 20 .negInf .posInf = some ts ∧
+    evalTerms ts = ∫ x in Set.univ, x ^ 1 * hemDensity ((3 : ℚ) : ℝ) ((1 / 2 : ℚ) : ℝ) ((10 : ℚ) : ℝ) ((20 : ℚ) : ℝ) x :=
+  hem_correct_ext 1 (by norm_num) 3 (1 / 2) 10 20 (by norm_num) (by norm_num) .negInf .posInf
+    (by simp [ELe, ExtRat.le, ExtRat.lt]) ⟨by simp, by simp⟩
+
+example : ∃ ts, vgXnTerms 5 20 30 3 (.fin (-1)) .posInf = some ts ∧
+    evalTerms ts = ∫ x in Set.Ioi (((-1 : ℚ)) : ℝ), x ^ 3 * vgDensity ((5 : ℚ) : ℝ) ((20 : ℚ) : ℝ) ((30 : ℚ) : ℝ) x :=
+  vg_xn_correct_ext 2 5 20 30 (by norm_num) (by norm_num) (.fin (-1)) .posInf (by simp [ELe, ExtRat.le, ExtRat.lt])
+    ⟨by simp, by simp⟩
+
+example : ∃ erf : ℝ → ℝ, ∃ t, mertonTerms 2 3 (1 / 10) (1 / 5) .negInf (.fin 1) = some t ∧
+    evalMerton erf ((1 / 10 : ℚ) : ℝ) ((1 / 5 : ℚ) : ℝ) t
+      = ∫ x in Set.Iic (((1 : ℚ)) : ℝ), x ^ 2 * mertonDensity ((3 : ℚ) : ℝ) ((1 / 10 : ℚ) : ℝ) ((1 / 5 : ℚ) : ℝ) x := by
+  obtain ⟨erf, h1, h2, h3⟩ := erf_hypotheses_satisfiable
+  exact ⟨erf, merton_correct_ext erf h1 h2 h3 2 (by norm_num) 3 (1 / 10) (1 / 5) (by norm_num) .negInf (.fin 1)
+    (by simp [ELe, ExtRat.le, ExtRat.lt]) ⟨by simp, by simp⟩⟩
+
+example : ∃ E1 : ℝ → ℝ, ∃ t, vgMassTerms 5 20 30 .negInf (.fin (-1 / 4)) = some t ∧
+    evalE1Terms E1 t = ∫ x in Set.Iic (((-1 / 4 : ℚ)) : ℝ), vgDensity ((5 : ℚ) : ℝ) ((20 : ℚ) : ℝ) ((30 : ℚ) : ℝ) x := by
+  obtain ⟨E1, h1, h2⟩ := E1_hypotheses_satisfiable
+  exact ⟨E1, vg_mass_correct_ext E1 h1 h2 5 20 30 (by norm_num) (by norm_num) (by norm_num) .negInf (.fin (-1 / 4))
+    (by simp [ELe, ExtRat.le, ExtRat.lt]) ⟨by simp, by simp⟩ (Or.inr (by simp [ExtRat.lt]; norm_num))⟩
+
+example : ∃ (E1 : ℝ → ℝ) (Gam : ℝ → ℝ → ℝ), ∃ t, cgmyMassTerms 1 5 6 (3 / 2) (.fin (1 / 10)) .posInf = some t ∧
+    evalCgmyTerms E1 Gam (fun _ _ => 0) (fun _ => 0) t
+      = ∫ x in Set.Ioi (((1 / 10 : ℚ)) : ℝ), cgmyDensity ((1 : ℚ) : ℝ) ((5 : ℚ) : ℝ) ((6 : ℚ) : ℝ) ((3 / 2 : ℚ) : ℝ) x := by
+  obtain ⟨E1, h1, h2⟩ := E1_hypotheses_satisfiable
+  obtain ⟨Gam, g1, g2⟩ := Gam_hypotheses_satisfiable
+  exact ⟨E1, Gam, cgmy_mass_correct_ext E1 Gam _ _ h1 g1 h2 g2 1 5 6 (3 / 2) (by norm_num) (by norm_num) (by norm_num)
+    (by norm_num) (.fin (1 / 10)) .posInf (by simp [ELe, ExtRat.le, ExtRat.lt]) ⟨by simp, by simp⟩
+    (Or.inl (by simp [ExtRat.lt]))⟩
+
+example : ∃ (E1 : ℝ → ℝ) (Gam : ℝ → ℝ → ℝ), ∃ t, cgmyXTerms 1 5 6 1 .negInf (.fin (-1 / 10)) = some t ∧
+    evalCgmyTerms E1 Gam (fun _ _ => 0) (fun _ => 0) t
+      = ∫ x in Set.Iic (((-1 / 10 : ℚ)) : ℝ), x ^ 1 * cgmyDensity ((1 : ℚ) : ℝ) ((5 : ℚ) : ℝ) ((6 : ℚ) : ℝ) ((1 : ℚ) : ℝ) x := by
+  obtain ⟨E1, h1, h2⟩ := E1_hypotheses_satisfiable
+  obtain ⟨Gam, g1, g2⟩ := Gam_hypotheses_satisfiable
+  exact ⟨E1, Gam, cgmy_x_correct_ext E1 Gam _ _ h1 g1 h2 g2 1 5 6 1 (by norm_num) (by norm_num) (by norm_num)
+    .negInf (.fin (-1 / 10)) (by simp [ELe, ExtRat.le, ExtRat.lt]) ⟨by simp, by simp⟩
+    (Or.inr (by simp [ExtRat.lt]; norm_num))⟩
+
+example : ∃ gl : ℝ → ℝ → ℝ, ∃ t, cgmyXXTerms 1 0 6 (1 / 2) (.fin (-1 / 10)) (.fin (1 / 5)) = some t ∧
+    evalCgmyTerms (fun _ => 0) (fun _ _ => 0) gl (fun _ => 0) t
+      = ∫ x in (((-1 / 10 : ℚ)) : ℝ)..(((1 / 5 : ℚ)) : ℝ),
+          x ^ 2 * cgmyDensity ((1 : ℚ) : ℝ) ((0 : ℚ) : ℝ) ((6 : ℚ) : ℝ) ((1 / 2 : ℚ) : ℝ) x := by
+  obtain ⟨gl, h1, h2, h3⟩ := gl_hypotheses_satisfiable
+  exact ⟨gl, cgmy_xx_correct _ _ gl _ h1 h2 h3 1 0 6 (1 / 2) (by norm_num) (by norm_num) (by norm_num) (-1 / 10) (1 / 5)
+    (by norm_num) (by norm_num)⟩
+
+example : ∃ (gl : ℝ → ℝ → ℝ) (GamC : ℝ → ℝ), ∃ t, cgmyXXTerms 1 5 6 (1 / 2) .negInf .posInf = some t ∧
+    evalCgmyTerms (fun _ => 0) (fun _ _ => 0) gl GamC t
+      = ∫ x in Set.univ, x ^ 2 * cgmyDensity ((1 : ℚ) : ℝ) ((5 : ℚ) : ℝ) ((6 : ℚ) : ℝ) ((1 / 2 : ℚ) : ℝ) x := by
+  obtain ⟨gl, GamC, h1, h2, h3, h4⟩ := gl_GamC_hypotheses_satisfiable
+  exact ⟨gl, GamC, cgmy_xx_correct_ext _ _ gl GamC h1 h2 h3 h4 1 5 6 (1 / 2) (by norm_num) (by norm_num) (by norm_num)
+    .negInf .posInf (by simp [ExtRat.lt]) (by simp [ExtRat.lt])⟩
 
 end Rpylib.Integrals
